@@ -509,9 +509,10 @@ def marks_of(journal):
     return out
 
 
-def fault_run(exe, wseed, bits, nb, endmode, k, persist, err, mask=255):
+def fault_run(exe, wseed, bits, nb, endmode, k, persist, err, mask=255, extra_env=None):
     """One faulted execution + recovery of the directory it left behind. Returns (events, meta) or a failure description."""
     env = dict(FAULT_K=k, FAULT_PERSIST=persist, FAULT_ERRNO=err, FAULT_MASK=mask)
+    if extra_env: env.update(extra_env)
     d = c.scratch('flt')
     j = os.path.join(d, 'journal')
     dbdir = os.path.join(d, 'db')
@@ -559,13 +560,14 @@ def run_fault(tier, seed):
     lib = c.build_lib(); exe = c.build_driver('crash', lib)
     total = dict(workloads=0, sites=0, runs=0, fired=0, tv_states=0, tv_transitions=0)
     samples = []
-    wls = [(seed * 1000 + 7, 0x000, 22), (seed * 1000 + 8, 0x800, 22)] if tier == 'quick' else \
-          [(seed * 1000 + i, b, 40) for i, b in enumerate([0x000, 0x800, 0x102, 0x904])]
-    for (wseed, bits, nb) in wls:
+    REOPEN = {'FAULT_REOPEN': '1', 'CRASH_REOPEN': '1'}      # close / open cycles inside the faulted workload: failures met by ldb_open itself
+    wls = [(seed * 1000 + 7, 0x000, 22, None), (seed * 1000 + 8, 0x800, 22, None), (seed * 1000 + 9, 0x000, 20, REOPEN)] if tier == 'quick' else \
+          [(seed * 1000 + i, b, 40, None) for i, b in enumerate([0x000, 0x800, 0x102, 0x904])] + [(seed * 1000 + 10 + i, b, 40, REOPEN) for i, b in enumerate([0x000, 0x800])]
+    for (wseed, bits, nb, wenv) in wls:
         if out.full(): break
         # baseline (fault never fires) to learn how many eligible calls the workload makes
         d = c.scratch('fb'); j = os.path.join(d, 'journal')
-        p = c.sh([exe, 'record', str(wseed), os.path.join(d, 'db'), j, str(bits), str(nb), '1'], timeout=120, env=dict(FAULT_K=10 ** 9, FAULT_PERSIST=0, FAULT_ERRNO=ENOSPC))
+        p = c.sh([exe, 'record', str(wseed), os.path.join(d, 'db'), j, str(bits), str(nb), '1'], timeout=120, env=dict(dict(FAULT_K=10 ** 9, FAULT_PERSIST=0, FAULT_ERRNO=ENOSPC), **(wenv or {})))
         if p.returncode != 0:
             raise Broken('fault baseline failed rc=%s %s' % (p.returncode, p.stderr[-300:]))
         n = 0
@@ -579,14 +581,14 @@ def run_fault(tier, seed):
             variants = [(0, ENOSPC), (1, ENOSPC)] if tier == 'quick' else [(0, ENOSPC), (1, ENOSPC), (0, EIO), (1, EIO)]
             for vi, (persist, err) in enumerate(variants):
                 jobs.append((k, persist, err, (k + vi) % 2))
-        results = c.pmap(lambda jb: fault_run(exe, wseed, bits, nb, jb[3], jb[0], jb[1], jb[2]), jobs, c.NCPU)
+        results = c.pmap(lambda jb: fault_run(exe, wseed, bits, nb, jb[3], jb[0], jb[1], jb[2], extra_env=wenv), jobs, c.NCPU)
         total['workloads'] += 1; total['sites'] += len(range(1, n + 1, step)); total['runs'] += len(jobs)
         lines = None; allev = []
         for r in results:
             if 'fail' in r:
                 # reproduce once before reporting
                 i = r['info']
-                r2 = fault_run(exe, wseed, bits, nb, i['endmode'], i['k'], i['persist'], i['errno'])
+                r2 = fault_run(exe, wseed, bits, nb, i['endmode'], i['k'], i['persist'], i['errno'], extra_env=wenv)
                 if 'fail' in r2:
                     rd = c.replay_dir(prop, 'fault')
                     json.dump(dict(kind='fault', workload=dict(seed=wseed, bits=bits, nb=nb), site=i, why=r['fail']), open(os.path.join(rd, 'replay.json'), 'w'), indent=1)
@@ -625,7 +627,7 @@ def run_fault(tier, seed):
                     if e['e'] == 'Reset': fault = None
                     if e['e'] == 'fault': fault = e
                 # reproduce that single site
-                r2 = fault_run(exe, wseed, bits, nb, site['endmode'], site['k'], site['persist'], site['errno'])
+                r2 = fault_run(exe, wseed, bits, nb, site['endmode'], site['k'], site['persist'], site['errno'], extra_env=wenv)
                 rep = False
                 if 'events' in r2:
                     rr, tp2, _ = tv([r2['events']])
